@@ -961,7 +961,7 @@ func (x *Exec) prologue() (*State, []Val) {
 		switch t.Underlying().(type) {
 		case *types.Pointer, *types.Slice:
 			blk := args[i].C[0]
-			x.assume(True(), And(Or(Eq(blk, BV(0, 32)), UGE(blk, BV(paramBlkBase, 32))), Eq(BVAnd(blk, BV(15, 32)), BV(0, 32)), ULE(blk, BV(0xfffffff0, 32))))
+			x.assume(True(), And(Or(Eq(blk, BV(0, 32)), UGE(blk, BV(paramBlkBase, 32))), Eq(BVAnd(blk, BV(63, 32)), BV(0, 32)), ULE(blk, BV(0xffffffc0, 32))))
 			if r := regionOfTyped(t, args[i]); r != nil {
 				preg = append(preg, *r)
 			}
@@ -970,7 +970,23 @@ func (x *Exec) prologue() (*State, []Val) {
 			}
 		case *types.Interface:
 			blk := args[i].C[1]
-			x.assume(True(), And(Or(Eq(blk, BV(0, 32)), UGE(blk, BV(paramBlkBase, 32))), Eq(BVAnd(blk, BV(15, 32)), BV(0, 32)), ULE(blk, BV(0xfffffff0, 32))))
+			x.assume(True(), And(Or(Eq(blk, BV(0, 32)), UGE(blk, BV(paramBlkBase, 32))), Eq(BVAnd(blk, BV(63, 32)), BV(0, 32)), ULE(blk, BV(0xffffffc0, 32))))
+			// the dynamic value: a pointer to the single implementation known in the package
+			if impls := x.W.ifaceImpls(t); len(impls) == 1 {
+				pt := impls[0].(*types.Pointer)
+				al := alignOf(pt.Elem())
+				off := alignedOff(args[i].C[2], al)
+				if off != args[i].C[2] {
+					x.assume(True(), Eq(args[i].C[2], off))
+					args[i].C = []*Term{args[i].C[0], args[i].C[1], off}
+				}
+				if r := regionOfTyped(pt, Val{C: []*Term{args[i].C[1], args[i].C[2]}}); r != nil {
+					preg = append(preg, *r)
+				}
+				// nil interface has a nil dynamic pointer; a non-nil one is of that type
+				x.assume(True(), And(Implies(Eq(args[i].C[0], BV(0, 32)), And(Eq(blk, BV(0, 32)), Eq(args[i].C[2], BV(0, 64)))),
+					Or(Eq(args[i].C[0], BV(0, 32)), Eq(args[i].C[0], BV(int64(x.typeID(pt)), 32)))))
+			}
 		}
 		x.typeInv(st, t, args[i].C)
 		args[i].C = x.normPtrs(st, t, args[i].C)
